@@ -76,7 +76,7 @@ pub fn cell(spec: &Value) -> Value {
                 let stored = std::fs::read(&p).ok();
                 let _ = std::fs::remove_file(&p);
                 if !r.completed || stored.as_deref() != Some(&data[..]) {
-                    viol.push(("e2-upload-content".into(), format!("{desc}: completed={} stored {:?} bytes, payload {}; anomalies {:?}", r.completed, stored.map(|s| s.len()), len, &r.anomalies[..r.anomalies.len().min(3)])));
+                    viol.push(("e2-upload-content".into(), format!("{desc}: completed={} error={:?} stored {:?} bytes, payload {}; anomalies {:?}; ACKs seen {:?}", r.completed, r.error, stored.map(|s| s.len()), len, &r.anomalies[..r.anomalies.len().min(3)], &r.acks[..r.acks.len().min(40)])));
                 }
             }
             c.executions += 1;
